@@ -1,6 +1,141 @@
-//! Tabulation of the assignability relation (C20). No judging here.
+//! Tabulation of the assignability relation (C20). No judging here: the worker builds the
+//! context and the names and reports what mamba answers.
+//!
+//! Request: {"src": mamba source (user classes), "terms": [term…], "eq": [[i, j]…]}
+//! term: {"n": "Int"} | {"n": "List", "g": [term…]} | {"opt": term} | {"u": [term, term…]}
+//!       | {"tuple": [term…]} | {"fun": [[term…], term]}
+//! Reply: display strings, the matrix sup[i][j] of `terms[i].is_superset_of(terms[j])`
+//! (1 true, 0 false, 2 Err, 3 panic) built twice from freshly constructed names (the second time
+//! union members are inserted in reverse order), the answers of the `==` queries, and the
+//! parent relation of every class of the context.
+use std::convert::TryFrom;
+use std::panic;
+
+use mamba::check::context::Context;
+use mamba::check::name::string_name::StringName;
+use mamba::check::name::{IsSuperSet, Name, Nullable, TupleCallable, Union};
+use mamba::common::position::Position;
+use mamba::parse::ast::AST;
 use serde_json::{json, Value};
 
-pub fn run(_req: &Value) -> Value {
-    json!({ "error": "lattice: not built yet" })
+fn build(term: &Value, reverse: bool) -> Result<Name, String> {
+    if let Some(n) = term.get("n").and_then(|n| n.as_str()) {
+        let generics: Vec<Name> = match term.get("g").and_then(|g| g.as_array()) {
+            Some(g) => g.iter().map(|t| build(t, reverse)).collect::<Result<_, _>>()?,
+            None => vec![],
+        };
+        return Ok(Name::from(&StringName::new(n, &generics)));
+    }
+    if let Some(inner) = term.get("opt") {
+        return Ok(build(inner, reverse)?.as_nullable());
+    }
+    if let Some(members) = term.get("u").and_then(|u| u.as_array()) {
+        let mut names: Vec<Name> =
+            members.iter().map(|t| build(t, reverse)).collect::<Result<_, _>>()?;
+        if reverse {
+            names.reverse();
+        }
+        let mut it = names.into_iter();
+        let mut acc = it.next().ok_or("empty union")?;
+        for n in it {
+            acc = acc.union(&n);
+        }
+        return Ok(acc);
+    }
+    if let Some(elements) = term.get("tuple").and_then(|u| u.as_array()) {
+        let names: Vec<Name> =
+            elements.iter().map(|t| build(t, reverse)).collect::<Result<_, _>>()?;
+        return Ok(Name::tuple(&names));
+    }
+    if let Some(fun) = term.get("fun").and_then(|u| u.as_array()) {
+        let args: Vec<Name> = fun[0]
+            .as_array()
+            .ok_or("fun args")?
+            .iter()
+            .map(|t| build(t, reverse))
+            .collect::<Result<_, _>>()?;
+        let ret = build(&fun[1], reverse)?;
+        return Ok(Name::callable(&args, &ret));
+    }
+    Err(format!("bad term {term}"))
+}
+
+fn matrix(names: &[Name], ctx: &Context) -> (Vec<Vec<u8>>, Vec<String>) {
+    let pos = Position::invisible();
+    let mut errs = vec![];
+    let mut rows = vec![];
+    for a in names {
+        let mut row = vec![];
+        for b in names {
+            let r = panic::catch_unwind(panic::AssertUnwindSafe(|| a.is_superset_of(b, ctx, pos)));
+            row.push(match r {
+                Ok(Ok(true)) => 1,
+                Ok(Ok(false)) => 0,
+                Ok(Err(e)) => {
+                    if errs.len() < 5 {
+                        errs.push(format!("{a} >= {b}: {}", e.first().map_or(String::new(), |e| format!("{e}"))));
+                    }
+                    2
+                }
+                Err(_) => {
+                    if errs.len() < 5 {
+                        errs.push(format!("{a} >= {b}: panic"));
+                    }
+                    3
+                }
+            });
+        }
+        rows.push(row);
+    }
+    (rows, errs)
+}
+
+pub fn run(req: &Value) -> Value {
+    let src = req["src"].as_str().unwrap_or("");
+    let ast = match src.parse::<AST>() {
+        Ok(ast) => ast,
+        Err(e) => return json!({ "error": format!("source does not parse: {e}") }),
+    };
+    let ctx = match Context::try_from(vec![ast].as_slice()) {
+        Ok(ctx) => ctx,
+        Err(errs) => {
+            return json!({ "error": format!("context: {}", errs.first().map_or(String::new(), |e| format!("{e}"))) })
+        }
+    };
+    let empty = vec![];
+    let terms = req["terms"].as_array().unwrap_or(&empty);
+    let build_all = |reverse: bool| -> Result<Vec<Name>, String> {
+        terms.iter().map(|t| build(t, reverse)).collect()
+    };
+    let (names, names2) = match (build_all(false), build_all(true)) {
+        (Ok(a), Ok(b)) => (a, b),
+        (Err(e), _) | (_, Err(e)) => return json!({ "error": e }),
+    };
+    let (sup, errs) = matrix(&names, &ctx);
+    let (sup2, _) = matrix(&names2, &ctx);
+    let eq: Vec<bool> = req["eq"]
+        .as_array()
+        .unwrap_or(&empty)
+        .iter()
+        .map(|p| {
+            let (i, j) = (p[0].as_u64().unwrap_or(0) as usize, p[1].as_u64().unwrap_or(0) as usize);
+            names[i] == names[j] && names2[i] == names2[j] && names[i] == names2[j]
+        })
+        .collect();
+    let mut classes = serde_json::Map::new();
+    for c in &ctx.classes {
+        let parents: Vec<String> = c.parents.iter().map(|p| p.name.variant.name.clone()).collect();
+        classes.insert(
+            c.name.name.clone(),
+            json!({ "parents": parents, "generics": c.name.generics.len(), "concrete": c.concrete }),
+        );
+    }
+    json!({
+        "display": names.iter().map(|n| format!("{n}")).collect::<Vec<_>>(),
+        "sup": sup,
+        "sup2": sup2,
+        "eq": eq,
+        "errors": errs,
+        "classes": classes,
+    })
 }
